@@ -14,6 +14,7 @@ import Driver.Ops.Reply
 import Driver.Ops.Sched
 import Driver.Ops.Server
 import Driver.Ops.Store
+import Driver.Ops.Timeouts
 import Driver.Ops.Wire
 open Slimta Slimta.Driver
 
@@ -35,6 +36,7 @@ def dispatch (line : String) : String :=
   | "sched" :: rest => schedOp rest
   | "server" :: rest => serverOp rest
   | "store" :: rest => storeOp rest
+  | "timeouts" :: rest => timeoutsOp rest
   | "wire" :: rest => wireOp rest
   | _ => "bad-op"
 partial def loop (hin : IO.FS.Stream) (hout : IO.FS.Stream) : IO Unit := do
